@@ -95,7 +95,7 @@ func c18Judge(tr *txTrace) []c18Viol {
 		}
 		// the step in which an injected fault closed a connection: the transaction may lose
 		// its connections here (the client is told by an error or is disconnected), so only
-		// the per-call clauses apply and the transaction's connection set starts afresh
+		// the per-call clauses apply and the connections given up leave the transaction
 		lossStep := tr.Fired && tr.Case.Fault != nil && tr.Case.Fault.Kind == "close" && tr.Case.Fault.Cmd == i
 		reloadedMid := false
 		for _, e := range st.Events {
@@ -138,6 +138,15 @@ func c18Judge(tr *txTrace) []c18Viol {
 				if e.Taken {
 					delete(owner, e.Conn)
 					released[e.Conn] = true
+					// the connection the injected fault hit, given up (closed and recycled)
+					// in the faulted command, is no longer part of the transaction
+					if e.Closed && tr.Fired && tr.Case.Fault != nil && tr.Case.Fault.Cmd == i && e.Conn == tr.FiredEv.Conn {
+						for sl, c := range txConn[x] {
+							if c == e.Conn {
+								delete(txConn[x], sl)
+							}
+						}
+					}
 					// a live connection of the open transaction must stay checked out
 					// until the transaction ends
 					if window && !isEnd && !e.Closed && !st.Ended {
@@ -216,8 +225,15 @@ func c18Judge(tr *txTrace) []c18Viol {
 				txConn[x] = map[string]int64{}
 			}
 		}
-		if !after || lossStep {
+		if !after {
 			txConn[x] = map[string]int64{}
+		} else if lossStep {
+			// connections given up in the loss step leave the transaction, the others stay
+			for sl, c := range txConn[x] {
+				if released[c] {
+					delete(txConn[x], sl)
+				}
+			}
 		}
 		inTx[x] = after
 		if st.Ended {
@@ -375,14 +391,21 @@ func c18AddScenario(r *kit.Rand, c *txCase, sx int) {
 		add(r.Pick([]string{"commit", "rollback", "ru"}))
 		return
 	}
-	add(r.Pick([]string{"ws1", "rs1", "ws2", "fs1"}))
+	add(r.Pick([]string{"ws1", "rs1", "ws2", "fs1", "ws1", "rs1"}))
 	victim := r.Pick([]string{"ru", "wu", "fu", "fl", "sr"})
 	at := add(victim)
-	op := r.Pick([]string{"usedb", "setcharset", "setvars", "exec"})
-	if victim == "fl" && op == "exec" {
-		op = "fieldlist"
+	if r.Chance(1, 3) {
+		// the fault hits while the transaction opens its connection on the second slice
+		// (session-variable sync, BEGIN / SET autocommit=0 on the fresh connection)
+		op := r.Pick([]string{"syncvars", "syncvars", "begin", "autocommit"})
+		c.Fault = &txFault{Kind: r.Pick([]string{"err", "close"}), Cmd: at, Slice: "slice-0", Op: op, N: 0}
+	} else {
+		op := r.Pick([]string{"usedb", "setcharset", "setvars", "exec"})
+		if victim == "fl" && op == "exec" {
+			op = "fieldlist"
+		}
+		c.Fault = &txFault{Kind: "close", Cmd: at, Slice: "slice-0", Op: op, N: 0}
 	}
-	c.Fault = &txFault{Kind: "close", Cmd: at, Slice: "slice-0", Op: op, N: 0}
 	add(r.Pick([]string{"ws1", "rs1", "ru", "ws2"}))
 	add(r.Pick([]string{"commit", "rollback", "ac1"}))
 }
@@ -406,6 +429,11 @@ func c18Curated() []*txCase {
 		mk("p", u, []string{"begin", "ws2", "fl", "ws2", "commit"}, &txFault{Kind: "close", Cmd: 2, Slice: "slice-0", Op: "setcharset"})
 		mk("p", u, []string{"begin", "ws1", "ru", "commit"}, &txFault{Kind: "close", Cmd: 2, Slice: "slice-0", Op: "setvars"})
 		mk("p", u, []string{"begin", "ws1", "ru", "ws1"}, &txFault{Kind: "close", Cmd: 2, Slice: "slice-0", Op: "exec"})
+		mk("p", u, []string{"begin", "ws1", "wu", "ws1", "commit"}, &txFault{Kind: "err", Cmd: 2, Slice: "slice-0", Op: "syncvars"})
+		mk("p", u, []string{"begin", "ws1", "fl", "rs1", "wu", "commit"}, &txFault{Kind: "close", Cmd: 2, Slice: "slice-0", Op: "syncvars"})
+		mk("p", u, []string{"begin", "rs1", "ru", "ws1", "rollback"}, &txFault{Kind: "err", Cmd: 2, Slice: "slice-0", Op: "begin"})
+		mk("p", u, []string{"ac0", "ws1", "ru", "ws1", "ru", "commit"}, &txFault{Kind: "err", Cmd: 2, Slice: "slice-0", Op: "autocommit"})
+		mk("p", u, []string{"ac0", "fs1", "sr", "ws1", "commit"}, &txFault{Kind: "err", Cmd: 2, Slice: "slice-0", Op: "syncvars"})
 	}
 	return out
 }
